@@ -621,10 +621,29 @@ def network_stage(st, r, cx, cls, pool, first):
     rlabels = [None if r.random() < 0.4 else fresh[i] for i in range(len(eqs))]
     forms = [r.random() < 0.6 for _ in eqs]
 
+    sp_cache, rx_cache = {}, {}
+
+    def species_obj(l, new=False):
+        if new or l not in sp_cache:
+            o = st.Species(label=l, density=r.choice([0, 1, 2.5]), D=r.choice([0, 1]))
+            if new:
+                return o
+            sp_cache[l] = o
+        return sp_cache[l]
+
+    def reaction_obj(i, lab):
+        if (i, lab) not in rx_cache:
+            s_, p_, t = eqs[i]
+            rx_cache[(i, lab)] = st.Reaction(t if forms[i] else [summed(s_), summed(p_)], kf=1, kr=r.choice([0, 1]), label=lab)
+        return rx_cache[(i, lab)]
+
     def mk(species_labels, reaction_labels):
-        sp = [st.Species(label=l, density=r.choice([0, 1, 2.5]), D=r.choice([0, 1])) for l in species_labels]
-        rs = [st.Reaction(t if f else [summed(s_), summed(p_)], kf=1, kr=r.choice([0, 1]), label=lab)
-              for (s_, p_, t), f, lab in zip(eqs, forms, reaction_labels)]
+        """the same Species / Reaction objects serve every variant; a repeated label gets an object of its own"""
+        seen, sp = set(), []
+        for l in species_labels:
+            sp.append(species_obj(l, new=l in seen))
+            seen.add(l)
+        rs = [reaction_obj(i, lab) for i, lab in enumerate(reaction_labels)]
         return st.RDNetwork(species=sp, reactions=rs)
 
     ctx = {"network": {"species": species, "equations": [t for _, _, t in eqs], "reaction_labels": rlabels}}
@@ -744,7 +763,7 @@ def main():
                            "K is compared only when kf/kr stays within 1e+-250 as doubles (counter K_skipped_float_range)"])
     run.require(*REQUIRED)
     thorough = tier() == "thorough"
-    nblocks, per = (1000, 1000) if thorough else (80, 250)
+    nblocks, per = (500, 1000) if thorough else (80, 250)   # ~0.3 CPU-min per 1000 equations (library deepcopies)
     cases = [{"seed": seed(), "block": b, "n": per, "sample_from": (b * 37) % per} for b in range(nblocks)]
     res = pmap("vf.checks.c19:run_block", cases, cpu_budget=900)
     for c, r_ in zip(cases, res):
